@@ -15,10 +15,41 @@ from ..report import Violation, AnalysisBroken
 def _where_fn(fn):
     return '%s:%d in %s' % (IR.rel(fn.file), fn.line, fn.name)
 
+def _timed_p_family(mod):
+    """the timed P and the static helpers it (transitively) calls that live in the same file, each with the ids of the parameter pair that
+    carries the caller's abs_deadline (seconds, nanoseconds), traced from the public function's own parameters through the call sites"""
+    root = mod.func('nsync_mu_semaphore_p_with_deadline')
+    if root is None or root.decl:
+        raise AnalysisBroken('nsync_mu_semaphore_p_with_deadline not found')
+    fam = {root.name: ('a1', 'a2')}
+    work = [root]
+    while work:
+        g = work.pop()
+        dl = fam[g.name]
+        for i in g.real_insts():
+            if i.op == 'call' and i.callee and i.callee not in fam:
+                h = mod.func(i.callee)
+                if h is None or h.decl or (h.file or '') != (g.file or ''):
+                    continue
+                pair = None
+                for k in range(len(i.ops) - 1):
+                    if dl and i.ops[k] == dl[0] and i.ops[k + 1] == dl[1]:
+                        pair = ('a%d' % k, 'a%d' % (k + 1))
+                fam[h.name] = pair
+                work.append(h)
+    return fam
+
 def check_timeout_guards(mod, K, rep, rid):
-    """R3 on the CFG of the timed P"""
-    fn = mod.func('nsync_mu_semaphore_p_with_deadline')
+    """R3 on the CFG of the timed P and of the helpers it is split into"""
     ET = K['ETIMEDOUT']
+    fam = _timed_p_family(mod)
+    found = 0
+    for fname, dl in sorted(fam.items()):
+        found += _check_timeout_guards_in(mod, mod.func(fname), dl, ET, rep, rid)
+    if not found:
+        raise AnalysisBroken('%s: no definition of ETIMEDOUT found in the timed P' % rid)
+
+def _check_timeout_guards_in(mod, fn, dl, ET, rep, rid):
     defs = []
     for i in fn.real_insts():
         if i.op == 'phi':
@@ -29,8 +60,6 @@ def check_timeout_guards(mod, K, rep, rid):
             defs.append((i, i))
         elif i.op == 'select' and any(IR.is_int(o) and IR.uval(o) == ET for o in i.ops[1:]):
             defs.append((i, None))
-    if not defs:
-        raise AnalysisBroken('%s: no definition of ETIMEDOUT found in the timed P' % rid)
     for d, at in defs:
         ok_res = ok_errno = ok_clock = False
         if at is not None:
@@ -54,8 +83,8 @@ def check_timeout_guards(mod, K, rep, rid):
                         while x is not None and x.op == 'extractvalue':
                             x = fn.imap.get(x.ops[0])
                         return x is not None and x.op == 'call' and x.callee == 'nsync_time_now'
-                    first_is_deadline = ops[0] == 'a1' and ops[1] == 'a2' and is_now(ops[2])
-                    first_is_now = is_now(ops[0]) and ops[2] == 'a1' and ops[3] == 'a2'
+                    first_is_deadline = dl is not None and ops[0] == dl[0] and ops[1] == dl[1] and is_now(ops[2])
+                    first_is_now = dl is not None and is_now(ops[0]) and ops[2] == dl[0] and ops[3] == dl[1]
                     if (first_is_deadline and pred in ('sle', 'slt')) or (first_is_now and pred in ('sge', 'sgt')):
                         ok_clock = True
         ok = ok_res and ok_errno and ok_clock
@@ -65,6 +94,7 @@ def check_timeout_guards(mod, K, rep, rid):
             missing = [n for n, v in (('wait result == -1', ok_res), ('errno == ETIMEDOUT', ok_errno), ('deadline <= now (clock re-check)', ok_clock)) if not v]
             rep.violate(Violation(rid, d.where(), 'the timed wait can report ETIMEDOUT without: ' + ', '.join(missing) + ' (an early or spurious kernel timeout would be reported as a real one)',
                                   site='nsync_mu_semaphore_p_with_deadline/etimedout-guards'))
+    return len(defs)
 
 def run(ctx, rep):
     mod = ctx.mod('C')
@@ -137,32 +167,24 @@ def run(ctx, rep):
                     rep.violate(Violation('C12.R4', _where_fn(mod.func(name)), 'V can return without %s: a sleeper blocked in FUTEX_WAIT is not resumed'
                                           % ('incrementing the count' if x.ghost.get(('flag', 'inc')) != 1 else 'issuing FUTEX_WAKE'), site='%s/post-incomplete' % name))
     check_timeout_guards(mod, K, rep, 'C12.R3')
-    # R5: NULL timeout <=> no_deadline
-    fn = mod.func('nsync_mu_semaphore_p_with_deadline')
+    # R5: NULL timeout <=> no_deadline - decided on the interpretation: the deadline is symbolic over representatives, nsync_time_cmp is
+    # interpreted in place, so at each kernel wait the set of deadlines that reach it is known
+    eng, exits = res['nsync_mu_semaphore_p_with_deadline']
+    MAXS, MAXN = (1 << 63) - 1, 999999999
     found = False
-    for i in fn.real_insts():
-        if i.op == 'phi' and i.ty.endswith('*') and any(IR.is_null(v) for v, _ in i.ops) and any(isinstance(v, str) for v, _ in i.ops):
-            for v, pb in i.ops:
-                if IR.is_null(v):
-                    found = True
-                    t = fn.bmap[pb].term
-                    ok = False
-                    if t.op == 'br' and len(t.x['targets']) == 2 and isinstance(t.ops[0], str):
-                        c = fn.imap[t.ops[0]]
-                        k = t.x['targets'].index(i.block.id) if i.block.id in t.x['targets'] else None
-                        n = _norm_cmp(fn, c, k == 0) if k is not None else None
-                        if n and n[0] == 'eq' and IR.is_int(n[2]) and IR.ival(n[2]) == 0:
-                            ci = fn.imap.get(n[1])
-                            if ci is not None and ci.op == 'call' and ci.callee == 'nsync_time_cmp' and ci.ops[0] == 'a1' and ci.ops[1] == 'a2':
-                                srcs = [fn.imap.get(o) for o in ci.ops[2:]]
-                                ok = all(s is not None and s.op == 'load' and 'nsync_time_no_deadline' in repr(s.ops[0]) for s in srcs)
-                    rep.instance('C12.R5', 'NULL timeout chosen at %s' % t.where())
-                    rep.oblig('C12.R5', ok)
-                    if not ok:
-                        rep.violate(Violation('C12.R5', t.where(), 'the kernel wait gets no timeout on a path that is not guarded by deadline == nsync_time_no_deadline (a finite deadline would sleep forever)',
-                                              site='nsync_mu_semaphore_p_with_deadline/null-timeout'))
+    for r in eng.records:
+        if r.kind == 'futex' and r.fkind == 'wait' and r.ts == 'NULL':
+            found = True
+            dl = getattr(r, 'deadline', None) or {}
+            secs, nsecs = dl.get('sec'), dl.get('nsec')
+            ok = secs is not None and nsecs is not None and set(secs) <= {MAXS} and set(nsecs) <= {MAXN}
+            rep.instance('C12.R5', 'kernel wait without timeout at %s: deadlines reaching it: sec %s nsec %s' % (r.where(), sorted(secs)[:3] if secs else secs, sorted(nsecs)[:3] if nsecs else nsecs))
+            rep.oblig('C12.R5', ok)
+            if not ok:
+                rep.violate(Violation('C12.R5', r.where(), 'the kernel wait gets no timeout for a deadline other than nsync_time_no_deadline (e.g. seconds %s): a finite deadline would sleep forever' % (sorted(secs)[:2] if secs else '?'),
+                                      site='nsync_mu_semaphore_p_with_deadline/null-timeout'))
     if not found:
-        raise AnalysisBroken('C12.R5: timeout pointer selection not found')
+        raise AnalysisBroken('C12.R5: no kernel wait without a timeout found (nsync_time_no_deadline must wait unboundedly)')
     rep.floor('C12.R1', 2)
     rep.floor('C12.R2', 5)
     rep.floor('C12.R3', 1)
